@@ -43,7 +43,8 @@ var varNames = []string{"PK", "KEK", "db", "dbx", "VerifOrdinary", "LoaderEntryS
 func secureBoot(i int) bool { return i < 4 }
 
 type Op struct {
-	Kind  string // write | signed | signed_subset (signed update whose payload is a part of the variable's current value) | readall
+	Kind  string // write | signed | signed_subset (signed update whose payload is a part of the variable's current value) | readall |
+	// signed_object (SignEFIVariable, then WriteVar of the signed update) | signed_object_again (the signed update made last is written once more)
 	Var   int
 	Value hx.Hex
 	Ident int
@@ -143,9 +144,14 @@ func genCase(t *rapid.T) Case {
 			op.Kind = "signed"
 			op.Value = dbValue(t)
 			op.Ident = rapid.IntRange(0, 3).Draw(t, "ident")
-			if rapid.IntRange(0, 2).Draw(t, "subset") == 0 {
+			switch rapid.IntRange(0, 5).Draw(t, "subset") {
+			case 0, 1:
 				op.Kind = "signed_subset" // the payload is computed from the current value when the step runs
 				op.Ident = rapid.IntRange(0, 1000).Draw(t, "subsetseed")
+			case 2:
+				op.Kind = "signed_object"
+			case 3:
+				op.Kind, op.Value = "signed_object_again", nil
 			}
 		default:
 			op.Kind = "readall"
@@ -259,8 +265,18 @@ func checkCase(c Case) error {
 	shrink, mixed, interleaved := false, false, false
 	lastKind := map[int]string{}
 	lastVar := -1
+	// the signed update made last with SignEFIVariable: a value the caller keeps and may write again (re-enrolment)
+	var keptUpdate efivar.Marshallable
+	var keptVar int
+	var keptPayload []byte
 	for i, op := range c.Ops {
 		vi := op.Var % len(vars)
+		if op.Kind == "signed_object_again" {
+			if keptUpdate == nil {
+				continue
+			}
+			vi = keptVar
+		}
 		v := vars[vi]
 		if op.Own {
 			// a variable is identified by its name and GUID value, not by which Efivar value or GUID pointer names it
@@ -318,6 +334,26 @@ func checkCase(c Case) error {
 			id := ids[op.Ident%4]
 			if err := e.WriteSignedUpdate(v, &db, id.Priv(), id.Cert); err != nil {
 				return fmt.Errorf("%s: WriteSignedUpdate fails: %v", step, err)
+			}
+		case "signed_object", "signed_object_again":
+			if op.Kind == "signed_object" {
+				db, err := signature.ReadSignatureDatabase(bytes.NewReader(op.Value))
+				if err != nil {
+					return fmt.Errorf("bad case: signed payload is not a database: %v", err)
+				}
+				id := ids[op.Ident%4]
+				_, m, err := signature.SignEFIVariable(v, &db, id.Priv(), id.Cert)
+				if err != nil {
+					return fmt.Errorf("%s: SignEFIVariable fails: %v", step, err)
+				}
+				keptUpdate, keptVar, keptPayload = m, vi, append([]byte{}, op.Value...)
+			} else {
+				op.Value = keptPayload
+				step = fmt.Sprintf("after step %d (the signed update of %s made earlier, %d-byte payload, written again)", i, varNames[vi], len(op.Value))
+				hx.Class("signed_update_value_written_a_second_time")
+			}
+			if err := e.WriteVar(v, keptUpdate); err != nil {
+				return fmt.Errorf("%s: WriteVar of a signed update fails: %v", step, err)
 			}
 		case "readall":
 			if err := checkAll(e, model, step); err != nil {
